@@ -38,6 +38,7 @@ import (
 	"github.com/Nextdoor/pg-bifrost.git/shutdown"
 	"github.com/Nextdoor/pg-bifrost.git/stats"
 	"github.com/jackc/pglogrepl"
+	"github.com/jackc/pgx/v5/pgconn"
 	"github.com/jackc/pgx/v5/pgproto3"
 )
 
@@ -413,6 +414,11 @@ func (c *fakeConn) ReceiveMessage(ctx context.Context) (pgproto3.BackendMessage,
 		return nil, fmt.Errorf("timeout: %w", context.DeadlineExceeded)
 	case "closed-err":
 		c.closed = true
+		if c.w.pos%3 == 1 {
+			// the server ended the walsender (administrator command, failover): pgconn closes the connection
+			// and returns the FATAL ErrorResponse as an error value; for the client a closed connection
+			return nil, fmt.Errorf("receive: %w", &pgconn.PgError{Severity: "FATAL", Code: "57P01", Message: "terminating connection due to administrator command"})
+		}
 		return nil, errors.New("conn closed")
 	case "other-err":
 		// an error on a connection that stays open, neither a timeout nor a closure: fatal for the client.
@@ -1153,6 +1159,20 @@ func genPgLike(rng *rand.Rand) Case {
 	}
 	_ = replyBudget
 	c.Events = append(c.Events, Event{Kind: "other-err"})
+	if rng.Intn(14) == 0 && !c.Blocked {
+		// a server with a backlog for the slot streams right away: the session's first message is the first
+		// BEGIN, no keepalive in front of it (drawn last)
+		for j, e := range c.Events {
+			if e.Kind == "xlog" {
+				if e.X == "begin" && len(e.Inject) == 0 && !e.Dies {
+					c.First = e
+					c.Events = append(c.Events[:j:j], c.Events[j+1:]...)
+					c.Mode = "pg-like-backlog-first"
+				}
+				break
+			}
+		}
+	}
 	return c
 }
 
